@@ -127,7 +127,7 @@ def parse_def(text):
         if not p:
             continue
         names.append(re.search(r"(\w+)$", p).group(1))
-        kinds.append("pure" if "RzILOpPure" in p else "ext")
+        kinds.append("pure" if "RzILOpPure" in p else "ext:bundle" if "HexInsnPktBundle" in p else "ext:hexop" if "HexOp" in p else "ext")
     body = body.rsplit("}", 1)[0]
     decls, ret = parse_body(body)
     return names, kinds, decls, ret
@@ -512,6 +512,14 @@ class Machine:
         params, kinds, decls, ret = self.subs[name]
         if len(args) != len(params):
             raise ILError(f"call of {name} with {len(args)} arguments for {len(params)} parameters")
+        # what the C compiler of the generated code would reject: packet data, register operands and IL values are
+        # different C types, so each has to arrive at a parameter of its own kind
+        for a, kind, pn in zip(args, kinds, params):
+            is_bundle = a == ("var", "bundle")
+            is_op = a[0] == "opvar" or (a[0] == "var" and a[1].endswith("_op"))
+            if (kind == "ext:bundle" and not is_bundle) or (kind != "ext:bundle" and is_bundle) or (kind == "pure" and is_op) \
+                    or (kind == "ext:hexop" and a[0] not in ("var", "opvar")):
+                raise ILError(f"ill-sorted argument: parameter {pn} ({kind}) of {name} gets {str(a)[:60]}")
         if self.scoped:
             vals = []
             for a, kind in zip(args, kinds):
